@@ -26,3 +26,25 @@ PROPS["C14"] = dict(
     assumptions=["model/Rust correspondence is differential (exhaustive for strings of <= 2 bytes, <= 3 bytes in thorough tier)"],
     gen_items=[],
 )
+
+PROPS["C20"] = dict(
+    level="proof",
+    technique="model generated from source by the translator (tag tables of network.rs / address.rs); Lean `decide +kernel` over the whole finite domain (3x3 pairs, all 256 bytes) lifted to arbitrary blobs; exhaustive differential check",
+    level_text="The model IS the tables regenerated from src/network.rs and src/util/address.rs on every run; C20_table/_injective/_network_inverse/_reject_others/_type_lookup/_cross_network are proved against Monero's literal table (Spec.tag) by kernel evaluation over every (network, type) pair and every byte value and lifted to blobs of any length. A one-sided or two-sided edit of any table entry changes Gen and makes `decide` fail. In addition the real functions are compared with model and spec on the complete domain (61 708 cases).",
+    level_note="Trusted: Lean kernel; the translator's reading of the match arms (cross-checked by the exhaustive differential run); Spec.tag is my transcription of cryptonote_config.h.",
+    design_ref="DESIGN.md §6 C20",
+    rule="exhaustive enumeration of the finite domain.",
+    assumptions=["Spec.tag (18/19/42, 53/54/63, 24/25/36) is Monero's table"],
+    gen_items=["network.", "address.from_slice"],
+)
+
+PROPS["C18"] = dict(
+    level="proof",
+    technique="delegation structure generated from amount.rs (which std method each checked_*/operator/assign calls) over Lean models of the std integer methods; theorems on Int for all operands in range; complete boundary-grid differential check",
+    level_text="C18_checked_unsigned_iff / C18_checked_signed_iff prove, for all operands in u64 / i64, that each checked operation of the regenerated model returns r iff r is the exact integer result, representable, with non-zero divisor (signed rem: at every pair except (MIN,-1), where C18_rem_min_neg1 proves the deviation - a recorded known finding); operators panic iff checked is None, assign = operator, conversions and positive_sub exact. Binding a method to wrapping_*/saturating_* or an operator to the wrong checked method is representable in Gen and refutes the theorems.",
+    level_note="Trusted: Lean kernel; models of std's checked_* semantics (StdInt.lean) validated on the boundary grid; translator's recognition of `self.0.m(rhs.0).map(T)`, `self.checked_m(rhs).expect(..)`, `*self = *self op other`; to_signed/to_unsigned/positive_sub hand-modelled with a reviewed-shape check.",
+    design_ref="DESIGN.md §6 C18",
+    rule="complete grid over ~50 boundary values per type x 5 ops x {checked, operator, assign}, conversions, positive_sub, random near-boundary pairs.",
+    assumptions=["std integer methods behave as documented (modelled in Model/StdInt.lean, validated differentially)"],
+    gen_items=["amount.Amount", "amount.SignedAmount"],
+)
